@@ -20,7 +20,8 @@ func init() {
 			"C19.4 the mapped address in Binding/Allocate responses is AddrIPPort(req.SrcAddr), the relayed address is AddrIPPort(alloc.RelayAddr) of the allocation just created, the LIFETIME is the duration handed to CreateAllocation; " +
 			"C19.5 SetResponseCache stores the request's transaction id and the attribute slice that is sent; on the existing-allocation path success is sent only on the id==TransactionID edge, otherwise 437, and no state effect lies on either path; " +
 			"C19.6 (=C04.3) the fingerprint under which the request's allocation (and its cached answer) is looked up is injective in the 5-tuple.; " +
-			"C19.7 every response sent by package server is assembled by buildMsg (transaction id first), never by hand.",
+			"C19.7 every response sent by package server is assembled by buildMsg (transaction id first), never by hand; " +
+			"C19.8 (=C15.2/C06.5r) the teardown of an allocation stops its lifetime timer (and releases everything else) on every path, so that no expiry left over from an earlier allocation of a 5-tuple ends a later one before the LIFETIME it was told.",
 		NotCovered: "reachability of the advertised relayed address from the network; what the relay generator returns; exactly-once delivery of a response.",
 		Run:        runC19,
 	})
@@ -299,6 +300,10 @@ func runC19(c *Ctx) {
 	// (shared with C04.3)
 	ruleFingerprintDeps(c, "C19.6")
 	ruleResponsesBuiltByBuildMsg(c, "C19.7")
+	// the lifetime reported stays in force only if nothing left over from an earlier allocation of
+	// the 5-tuple can end this one: Close stops the lifetime timer on every path (the expiry
+	// deletes by 5-tuple)
+	ruleReleaseCoverage(c, "C19.8")
 }
 
 func rawBase(v ssa.Value) ssa.Value {
